@@ -121,6 +121,17 @@ CHECKS = {
         "components": {"real": REAL + ["hint wrapper hook (constraint/verifhook, -tags verif)"], "stub": ["hint answers under fault (byzantine solver oracle)", "commitment challenge in solver-only runs (hash of the committed values, as under Fiat-Shamir)"]},
         "assumptions": ["only the 'no substitution of hint outputs' clause is decided; congruence under honest hints is the baseline of the same runs", "operand representations are those a witness can carry (reduced values and the modulus itself) and those the chains produce"],
     },
+    "C19": {
+        "engine": "c19",
+        "level": "fault_enumeration",
+        "rule": "one evaluation = one Solve of a circuit delegating a batch of gate evaluations to GKR under a plan of faulted answers of the GKR solving hint (exported values) and proving hint (sum-check proof elements), judged by direct evaluation of the same gates on the imported inputs; "
+                "a case = (topology in {mul; add+mul with fan-out; mul-mul-sub; neg-add-mul}, 2..16 instances, field, builder, inputs, fault tape)",
+        "quick": {"runs": 480, "budget_s": 220, "selftest_runs": 3, "params": {"faults": 12}},
+        "thorough": {"runs": 16000, "budget_s": 2700, "selftest_runs": 4, "params": {"faults": 32}},
+        "expect_probes": ["faulty_answer_rejected", "perturb-output", "misdirected", "replayed", "swap-outputs", "hint-error"],
+        "components": {"real": REAL + ["hint wrapper hook (constraint/verifhook, -tags verif): reaches the GKR hints the solver installs itself"], "stub": ["hint answers under fault (byzantine solver oracle)", "commitment challenge in solver-only runs (hash of the committed values)"]},
+        "assumptions": ["only the forgery clause is decided (the fault-free equality with direct evaluation is the baseline of the same runs)", "Fiat-Shamir hash: mimc; series dependencies between instances are not generated"],
+    },
     "C13": {
         "engine": "c13",
         "level": "fault_enumeration",
